@@ -430,6 +430,13 @@ def special_value_cases(tier):
             yield dict(name="x ** p, 0-d tensor exponent %g, base %s" % (e, shape), op="power", operands=[xb, np.array(e)], mg=lambda x, p: x ** p, shadow=lambda x, p: x ** p, np=lambda x, p: x ** p)
             yield dict(name="p ** x, 0-d tensor base %g, exponent %s" % (e + 1, shape), op="power", operands=[np.array(e + 1.0), xb], mg=lambda p, x: p ** x, shadow=lambda p, x: p ** x, np=lambda p, x: p ** x)
             yield dict(name="x ** p, array exponent %g (scalar array operand)" % e, op="power", operands=[xb, np.array(e)], kinds=("t", "a"), mg=lambda x, p: x ** p, shadow=lambda x, p: x ** p, np=lambda x, p: x ** p)
+    # power with a base that is exactly 0 and array exponents >= 1: d/dx x**y = y * x**(y-1) is 1 at y == 1 and 0 above
+    xz = np.array([0.0, 0.0, 0.0, 1.5, 0.0])
+    yz = np.array([1.0, 2.0, 3.0, 1.0, 1.5])
+    yield dict(name="power, base exactly 0, array exponent", op="power", operands=[xz, yz], kinds=("t", "a"), mg=lambda x, y: mg.power(x, y), shadow=lambda x, y: x ** y, np=np.power)
+    yield dict(name="x ** y, base exactly 0, array exponent (operator)", op="power", operands=[xz, yz], kinds=("t", "a"), mg=lambda x, y: x ** y, shadow=lambda x, y: x ** y, np=np.power)
+    yield dict(name="x[:, None] ** arange(4), base with zeros", op="power", operands=[np.array([0.0, 2.0])], mg=lambda x: x[:, None] ** np.arange(4.0),
+               shadow=lambda x: x[:, None] ** np.arange(4.0), np=None)
     # where= masks in every container NumPy accepts (list, tuple, tensor, NumPy bool scalar, 0-d array), for a unary and two binary ufuncs
     mvals = [True, False, True]
     mkinds = [("list", lambda: list(mvals)), ("tuple", lambda: tuple(mvals)), ("tensor", lambda: mg.tensor(mvals)), ("bool array", lambda: np.array(mvals)),
@@ -528,6 +535,11 @@ def manip_cases(tier):
         ("flatten", [x23], lambda a: a.flatten(), lambda a: a.flatten()),
         ("broadcast_to (3,)->(2,3)", [x3], lambda a: mg.broadcast_to(a, (2, 3)), lambda a: np.broadcast_to(a, (2, 3))),
         ("broadcast_to ()->(2,2)", [x0d], lambda a: mg.broadcast_to(a, (2, 2)), lambda a: np.broadcast_to(a, (2, 2))),
+        # stretched length-1 axes (alone and together with prepended axes)
+        ("broadcast_to (3,1)->(3,4)", [vals((3, 1), 2)], lambda a: mg.broadcast_to(a, (3, 4)), lambda a: np.broadcast_to(a, (3, 4))),
+        ("broadcast_to (1,3)->(2,3)", [vals((1, 3), 4)], lambda a: mg.broadcast_to(a, (2, 3)), lambda a: np.broadcast_to(a, (2, 3))),
+        ("broadcast_to (3,1)->(2,3,4)", [vals((3, 1), 6)], lambda a: mg.broadcast_to(a, (2, 3, 4)), lambda a: np.broadcast_to(a, (2, 3, 4))),
+        ("broadcast_to (2,1,3)->(2,2,3)", [vals((2, 1, 3), 1)], lambda a: mg.broadcast_to(a, (2, 2, 3)), lambda a: np.broadcast_to(a, (2, 2, 3))),
         ("atleast_1d 0-d", [x0d], lambda a: mg.atleast_1d(a), lambda a: np.atleast_1d(a)),
         ("atleast_2d (3,)", [x3], lambda a: mg.atleast_2d(a), lambda a: np.atleast_2d(a)),
         ("atleast_3d (2,3)", [x23], lambda a: mg.atleast_3d(a), lambda a: np.atleast_3d(a)),
